@@ -1,10 +1,14 @@
 import Vuego.Driver.OverlayOp
+import Vuego.Driver.StackOp
 namespace Vuego.Driver
 open Lean
 
 def handle (j : Json) : Json :=
   match jString j "op" with
   | "overlay" => overlayOp j
+  | "stackops" => stackOps j
+  | "truthy" => truthyOp j
+  | "splitpath" => splitPathOp j
   | _ => O [("error", Json.str "bad-op")]
 
 def handleLine (line : String) : String :=
